@@ -948,7 +948,9 @@ fn run_live(clock: &Clock, cfg: &Value) {
                 emit("LiveFeed", json!({"item": name, "bytes": bytes.len()}));
                 feed(bytes);
                 for _ in 0..50 {
-                    if ended {
+                    // the channel is polled only when something woke it (a task that returned Pending without arranging
+                    // a wake-up is never polled again by an executor)
+                    if ended || !flag.is_set() {
                         break;
                     }
                     let waker = flag.waker();
@@ -961,6 +963,8 @@ fn run_live(clock: &Clock, cfg: &Value) {
                             emit("LiveYield", json!({"id": format!("{}", id), "dl": ms_of(clock, req.get().context.deadline) / 1000,
                                                      "probe": id == 999}));
                             handlers.push(Box::pin(req.execute(tarpc::server::serve(|_ctx, m: String| async move { Ok(m) }))));
+                            // a stream that yielded an item is asked for the next one
+                            flag.set.store(true, std::sync::atomic::Ordering::SeqCst);
                         }
                         Ok(Poll::Ready(Some(Err(e)))) => {
                             emit("LiveErr", json!({"msg": format!("{}", e)}));
